@@ -45,3 +45,9 @@ chk("C13", "fault_enumeration",
     "exit 0 implies output identical to the fault-free run. Plus truncated tar streams (cut inside a member) and truncated images.",
     "Single fault per run, -j 1; allocation faults only for allocations made by project code (link-time wrap), not inside libc/zlib/xz/zstd.",
     "exhaustive single-fault injection via link-time wrappers under ASan", "3/C13")
+chk("C14", "fault_enumeration",
+    "For each generated input and both packers the number K of output-file operations is measured and the packer is killed (SIGKILL, injected in the pwrite/ftruncate wrappers) "
+    "right before operation k for every k in 1..K (thorough: also half-way through each pwrite). The file left behind must be rejected by rdsquashfs -d, rdsquashfs -l / and sqfs2tar, "
+    "or accepted by all three with byte-identical output and an identical decoded tree (independent parser) to the completed image.",
+    "Crash model: process death between two output system calls with the page cache intact; padding after bytes_used is not compared.",
+    "exhaustive crash-point injection at output system calls", "3/C14")
